@@ -205,37 +205,37 @@ Definition ref_decode (w : bytes) : option message :=
 (* ------------------------------------------------------------------------------------------ *)
 (* The class of encodings on which quick-protobuf agrees with the reference decoder           *)
 
-Definition two32 : N := 2 ^ 32.
+Definition ref_two32 : N := 2 ^ 32.
 
 Definition class_tokens (w : bytes) (p : token -> bool) : bool :=
   match tokenise w with Some ts => forallb p ts | None => false end.
 
 Definition class_entry_tok (t : token) : bool :=
   match t with
-  | (f, PBytes b) => if f =? 1 then len b <? two32 else true
-  | (f, PVarint v) => if (f =? 3) || (f =? 5) then v <? two32 else true
+  | (f, PBytes b) => if f =? 1 then len b <? ref_two32 else true
+  | (f, PVarint v) => if (f =? 3) || (f =? 5) then v <? ref_two32 else true
   | _ => true
   end.
 Definition class_entry (w : bytes) : bool := class_tokens w class_entry_tok.
 
 Definition class_wantlist_tok (t : token) : bool :=
   match t with
-  | (f, PBytes b) => if f =? 1 then (len b <? two32) && class_entry b else true
-  | (f, PVarint v) => if f =? 2 then v <? two32 else true
+  | (f, PBytes b) => if f =? 1 then (len b <? ref_two32) && class_entry b else true
+  | (f, PVarint v) => if f =? 2 then v <? ref_two32 else true
   | _ => true
   end.
 Definition class_wantlist (w : bytes) : bool := class_tokens w class_wantlist_tok.
 
 Definition class_block_tok (t : token) : bool :=
   match t with
-  | (f, PBytes b) => if (f =? 1) || (f =? 2) then len b <? two32 else true
+  | (f, PBytes b) => if (f =? 1) || (f =? 2) then len b <? ref_two32 else true
   | _ => true
   end.
 Definition class_block (w : bytes) : bool := class_tokens w class_block_tok.
 
 Definition class_presence_tok (t : token) : bool :=
   match t with
-  | (f, PBytes b) => if f =? 1 then len b <? two32 else true
+  | (f, PBytes b) => if f =? 1 then len b <? ref_two32 else true
   | _ => true
   end.
 Definition class_presence (w : bytes) : bool := class_tokens w class_presence_tok.
@@ -243,9 +243,9 @@ Definition class_presence (w : bytes) : bool := class_tokens w class_presence_to
 Definition class_message_tok (t : token) : bool :=
   match t with
   | (f, PBytes b) =>
-      if f =? 1 then (len b <? two32) && class_wantlist b
-      else if f =? 3 then (len b <? two32) && class_block b
-      else if f =? 4 then (len b <? two32) && class_presence b
+      if f =? 1 then (len b <? ref_two32) && class_wantlist b
+      else if f =? 3 then (len b <? ref_two32) && class_block b
+      else if f =? 4 then (len b <? ref_two32) && class_presence b
       else true
   | _ => true
   end.
